@@ -36,7 +36,13 @@ def check_map(ctx):
         if isinstance(v, ast.Tuple):
             ctx.check(R, s, "returned index is the same argmax", len(v.elts) == 2 and isinstance(row, ast.Subscript) and canon(v.elts[1]) == canon(row.slice), "index `%s`" % A.unparse(v.elts[1])[:50], key="map:idx")
     ctx.floor(R, n, 2)
-    g = [s for s in A.walk_local(fn) if isinstance(s, ast.If) and A.always_raises(s.body) and "ln_prior" in A.unparse(s.test) and "ln_likelihood" in A.unparse(s.test)]
+    # each missing column leads to a raise (one combined guard or one guard per column; the container may be the table, its column list or the samples object)
+    g = True
+    for col in ("ln_prior", "ln_likelihood"):
+        g = g and any(A.find_raising_guard(fn, A.nnf_of_src("'%s' not in %s" % (col, box))) is not None
+                      for box in ("samples.tbl.colnames", "samples.tbl.columns", "samples.tbl", "samples.par_names", "samples", "samples.tbl.keys()", "samples.keys()"))
+    # ... or one raising guard whose test involves both names (set forms: `not {"ln_prior", "ln_likelihood"} <= set(cols)`, `.issubset`)
+    g = g or any(isinstance(s, ast.If) and A.always_raises(s.body) and "ln_prior" in A.unparse(s.test) and "ln_likelihood" in A.unparse(s.test) for s in A.walk_local(fn))
     ctx.check(R, fn, "missing log-prob columns raise", bool(g), "no raise when ln_prior / ln_likelihood are absent", key="map:guard", nontrivial=False)
 
 
